@@ -22,6 +22,7 @@ type report struct {
 	loadS, genS, solveS float64
 	nq      int
 	t0      time.Time
+	bounded []boundedResult
 }
 
 type KnownFinding struct {
@@ -133,6 +134,23 @@ func (r *report) finish() int {
 			exit = 1
 		}
 	}
+	// bounded stand-ins (labelled bounded; a failure is a failing input on the real code)
+	var bounded []boundedResult
+	if !o.noEvidence && o.property != "" {
+		bounded = runBounded(o, id)
+		for _, b := range bounded {
+			if !b.Passed {
+				violations++
+				path := filepath.Join(replayDir, "bounded_"+sanitizeFile(b.Name+b.Tags)+".json")
+				writeJSON(path, map[string]any{"property": id, "obligation": "bounded:" + b.Name, "kind": "bounded", "replay_cmd": b.Cmd, "replay_output": truncate(b.Out, 6000), "reproduced_on_real_code": true})
+				lines = append(lines, fmt.Sprintf("VIOLATION property=%s replay=%s obligation=bounded:%s", id, path, b.Name))
+				if exit == 0 {
+					exit = 1
+				}
+			}
+		}
+	}
+	r.bounded = bounded
 	wall := time.Since(r.t0).Seconds()
 	// evidence
 	if !o.noEvidence && o.property != "" {
@@ -314,6 +332,10 @@ func (r *report) writeEvidence(id string, discharged int, failed []*OblResult, k
 		"engine_errors":            nonNil(r.genErrs),
 		"vacuity_canaries":         map[string]any{"checked": countCanaries(r.fxs), "vacuous": len(r.vacuous)},
 		"contract_lines":           contractLines(r.fxs),
+	}
+	if len(r.bounded) > 0 {
+		cov["bounded"] = r.bounded
+		cov["bounded_note"] = "bounded stand-ins cover code outside govc's reach (assembly, unsafe); they are not obligations and are not counted in `discharged`"
 	}
 	ev := Evidence{PropertyID: id, Tier: r.o.tier, Seed: r.seed, Level: "proof", Coverage: cov, Assumptions: assumptions, WallS: round3(wall), Violations: violations}
 	if err := writeJSON(filepath.Join(r.o.verif, "evidence", id+".json"), ev); err != nil {
